@@ -57,7 +57,7 @@ func (c *EventCache) Add(event *Event) (added bool) {
 
 	eventKey := c.getEventKey(event)
 
-	if c.isDeleted(eventKey, event.Pubkey) {
+	if c.isDeleted(eventKey, event.Pubkey) || c.isDeleted(event.ID, event.Pubkey) {
 		return false
 	}
 
@@ -115,6 +115,13 @@ func (c *EventCache) deleteByKind5(event *Event) {
 
 	for _, key := range keys {
 		c.delete(eventCacheDeletedEventKey{key, event.Pubkey})
+
+		// An e tag names an event id, but replaceable and addressable events
+		// are stored under their address: resolve the id through the index.
+		idKey := eventCacheEvsIndexKey{eventCacheEvsIndexKeyWhatID, key}
+		for target := range c.evsIndex.idx[idKey] {
+			c.delete(eventCacheDeletedEventKey{c.getEventKey(target), event.Pubkey})
+		}
 	}
 }
 
